@@ -608,6 +608,17 @@ func natSleep(p *Path, g *G, fr *Frame, fv *FuncV, args []Value) (Value, int) {
 		g.wait = "sleep"
 		return nil, stBlock
 	}
+	if g.id != 0 {
+		// a goroutine other than the harness's polls by sleeping: it gives the others a turn
+		// (a poller that sleeps while nothing else can run is treated as blocked)
+		if g.napDone {
+			g.napDone = false
+			return nil, stNext
+		}
+		g.napping = true
+		g.wait = "sleep"
+		return nil, stBlock
+	}
 	return nil, stNext
 }
 
